@@ -46,6 +46,21 @@ def formatOf : Int → Format
 theorem formatOf_ctorIdx (f : Format) (h : f ≠ .bad) : formatOf (f.ctorIdx : Int) = f := by
   cases f <;> first | rfl | exact absurd rfl h
 
+/-- The walk of the other discipline: a member that is written first gets the separator when the buffer is longer
+    than `n` (something was written after the opening), then the pieces. -/
+def walkSepG (skip : Format) (n : Nat) (sep : UInt8) (pieces : List Piece) (mv : Val → Outcome Bytes) :
+    Bytes → List (Bytes × Val) → Outcome Bytes
+  | buf, [] => .ok buf
+  | buf, (k, v) :: rest =>
+    if Cells.format v == skip then walkSepG skip n sep pieces mv buf rest
+    else
+      match mv v with
+      | .ok vb =>
+        walkSepG skip n sep pieces mv
+          ((if buf.length > n then buf ++ [sep] else buf) ++ (pieces.map (pieceG (JsonWrite.quote k) vb)).flatten) rest
+      | .err e => .err e
+      | .panic s => .panic s
+
 /-- `row.MarshalJSON` read off the fact. `none`: the fact is `unknown`. -/
 def marshalRowG (f : MarshalFact) (mv : Val → Outcome Bytes) (ms : List (Bytes × Val)) : Option (Outcome Bytes) :=
   match f with
@@ -54,6 +69,12 @@ def marshalRowG (f : MarshalFact) (mv : Val → Outcome Bytes) (ms : List (Bytes
     some (
       match walkG (formatOf skip) pieces mv (opening.map UInt8.ofNat) ms with
       | .ok buf => .ok (closeG n (UInt8.ofNat c) buf)
+      | .err e => .err e
+      | .panic s => .panic s)
+  | .separated opening skip n sep pieces c =>
+    some (
+      match walkSepG (formatOf skip) n (UInt8.ofNat sep) pieces mv (opening.map UInt8.ofNat) ms with
+      | .ok buf => .ok (buf ++ [UInt8.ofNat c])
       | .err e => .err e
       | .panic s => .panic s)
 
@@ -138,34 +159,128 @@ theorem walk_parts (mv : Val → Outcome Bytes) : ∀ (ms : List (Bytes × Val))
         | err e => rfl
         | panic s => rfl
 
+theorem joinComma_cons2 (a b : Bytes) (bs : List Bytes) :
+    RowPrint.joinComma (a :: b :: bs) = a ++ 0x2C :: RowPrint.joinComma (b :: bs) := by
+  simp [RowPrint.joinComma]
+
+theorem joinComma_snoc : ∀ (acc : List Bytes) (p : Bytes), acc ≠ [] →
+    RowPrint.joinComma (acc ++ [p]) = RowPrint.joinComma acc ++ 0x2C :: p := by
+  intro acc
+  induction acc with
+  | nil => intro p h; exact absurd rfl h
+  | cons a as ih =>
+    intro p _
+    cases as with
+    | nil => simp [RowPrint.joinComma]
+    | cons b bs =>
+      have := ih p (by simp)
+      simp only [List.cons_append] at this ⊢
+      rw [joinComma_cons2, this, joinComma_cons2]
+      simp
+
+theorem joinComma_ne_nil (a : Bytes) (as : List Bytes) (ha : a ≠ []) : RowPrint.joinComma (a :: as) ≠ [] := by
+  cases as with
+  | nil => simpa [RowPrint.joinComma] using ha
+  | cons b bs => simp [RowPrint.joinComma, ha]
+
+/-- One step of the other discipline on a buffer that is `{` + the members so far joined by commas. -/
+theorem sep_step (acc : List Bytes) (hacc : ∀ p ∈ acc, p ≠ []) (part : Bytes) :
+    (if (0x7B :: RowPrint.joinComma acc).length > 1 then (0x7B :: RowPrint.joinComma acc) ++ [0x2C]
+      else 0x7B :: RowPrint.joinComma acc) ++ part = 0x7B :: RowPrint.joinComma (acc ++ [part]) := by
+  cases acc with
+  | nil => simp [RowPrint.joinComma]
+  | cons a as =>
+    have hne := joinComma_ne_nil a as (hacc a (by simp))
+    have hlen : (0x7B :: RowPrint.joinComma (a :: as)).length > 1 := by
+      cases h : RowPrint.joinComma (a :: as) with
+      | nil => exact absurd h hne
+      | cons x xs => simp
+    rw [if_pos hlen, joinComma_snoc (a :: as) part (by simp)]
+    simp
+
+theorem walkSep_parts (mv : Val → Outcome Bytes) : ∀ (ms : List (Bytes × Val)) (acc : List Bytes), (∀ p ∈ acc, p ≠ []) →
+    walkSepG .hidden 1 0x2C [.key, .byte 0x3A, .cell] mv (0x7B :: RowPrint.joinComma acc) ms =
+      match partsG mv ms with
+      | .ok ps => .ok (0x7B :: RowPrint.joinComma (acc ++ ps))
+      | .err e => .err e
+      | .panic s => .panic s := by
+  intro ms
+  induction ms with
+  | nil => intro acc _; simp [walkSepG, partsG]
+  | cons kv ms ih =>
+    intro acc hacc
+    cases kv with
+    | mk k v =>
+      simp only [walkSepG, partsG]
+      split
+      · exact ih acc hacc
+      · cases hv : mv v with
+        | ok vb =>
+          have hpart : ([Piece.key, .byte 0x3A, .cell].map (pieceG (JsonWrite.quote k) vb)).flatten = JsonWrite.quote k ++ 0x3A :: vb := by
+            simp [pieceG]
+          simp only [hpart, sep_step acc hacc]
+          have hacc' : ∀ p ∈ acc ++ [JsonWrite.quote k ++ 0x3A :: vb], p ≠ [] := by
+            intro p hp
+            rcases List.mem_append.mp hp with h | h
+            · exact hacc p h
+            · simp at h; subst h; simp
+          rw [ih _ hacc']
+          cases partsG mv ms with
+          | ok ps => simp
+          | err e => rfl
+          | panic s => rfl
+        | err e => rfl
+        | panic s => rfl
+
+/-- `row.MarshalJSON` is `RowPrint.marshalVal env (.row ms)` under EITHER comma discipline: the separator after every
+    member and the last one replaced by `}`, or the separator in front of every member but the first and `}` appended. -/
+theorem marshal_either (env : Value.Env) (ms : Members) (f : MarshalFact)
+    (h : f = .members [123] 8 [.key, .byte 58, .cell, .byte 44] 1 125
+       ∨ f = .separated [123] 8 1 44 [.key, .byte 58, .cell] 125) :
+    marshalRowG f (RowPrint.marshalVal env) ms.toList = some (RowPrint.marshalVal env (.row ms)) := by
+  have hf : formatOf 8 = .hidden := rfl
+  have h1 : ([123] : List Nat).map UInt8.ofNat = [0x7B] := by decide
+  have hc : UInt8.ofNat 125 = 0x7D := by decide
+  rw [RowPrint.marshalVal, parts_eq]
+  rcases h with h | h
+  · subst h
+    have hw := walk_parts (RowPrint.marshalVal env) ms.toList [0x7B]
+    simp only [marshalRowG, hf]
+    have h2 : ([.key, .byte 58, .cell, .byte 44] : List Piece) = [.key, .byte 0x3A, .cell, .byte 0x2C] := rfl
+    rw [h1, h2, hw]
+    cases partsG (RowPrint.marshalVal env) ms.toList with
+    | ok ps =>
+      simp only [hc]
+      have := close_commas ps
+      simp only [List.cons_append, List.nil_append] at this ⊢
+      rw [this]
+    | err e => rfl
+    | panic s => rfl
+  · subst h
+    have hw := walkSep_parts (RowPrint.marshalVal env) ms.toList [] (by simp)
+    simp only [marshalRowG, hf]
+    have h2 : ([.key, .byte 58, .cell] : List Piece) = [.key, .byte 0x3A, .cell] := rfl
+    have h3 : UInt8.ofNat 44 = 0x2C := by decide
+    have h4 : (0x7B :: RowPrint.joinComma []) = [0x7B] := rfl
+    rw [h1, h2, h3, ← h4, hw]
+    cases partsG (RowPrint.marshalVal env) ms.toList with
+    | ok ps => simp [hc]
+    | err e => rfl
+    | panic s => rfl
+
 /-- `row.MarshalJSON`, as the source says it today, is `RowPrint.marshalVal env (.row ms)`. -/
 theorem marshal_as_modelled (env : Value.Env) (ms : Members) :
-    marshalRowG Gen.rowFacts.marshal (RowPrint.marshalVal env) ms.toList = some (RowPrint.marshalVal env (.row ms)) := by
-  have hw := walk_parts (RowPrint.marshalVal env) ms.toList [0x7B]
-  have hf : formatOf 8 = .hidden := rfl
-  rw [RowPrint.marshalVal, parts_eq]
-  simp only [marshalRowG, Gen.rowFacts, hf]
-  have h1 : ([123] : List Nat).map UInt8.ofNat = [0x7B] := by decide
-  have h2 : ([.key, .byte 58, .cell, .byte 44] : List Piece) = [.key, .byte 0x3A, .cell, .byte 0x2C] := rfl
-  rw [h1, h2, hw]
-  cases partsG (RowPrint.marshalVal env) ms.toList with
-  | ok ps =>
-    have hc : UInt8.ofNat 125 = 0x7D := by decide
-    simp only [hc]
-    have := close_commas ps
-    simp only [List.cons_append, List.nil_append] at this ⊢
-    rw [this]
-  | err e => rfl
-  | panic s => rfl
+    marshalRowG Gen.rowFacts.marshal (RowPrint.marshalVal env) ms.toList = some (RowPrint.marshalVal env (.row ms)) :=
+  marshal_either env ms Gen.rowFacts.marshal (by decide)
 
 
 /-- The format a row reports for itself is `.auto` (`Cells.format (.row _)`), the format MarshalJSON skips is
     `.hidden` (`RowPrint.marshalMembers`), and a row has no raw type (`Cells.rawType (.row _) = .none`). -/
 theorem formats_as_modelled (ms : Members) :
     Gen.rowFacts.selfFormat.map formatOf = some (Cells.format (.row ms))
-    ∧ (∃ o p n c, Gen.rowFacts.marshal = .members o (Format.hidden.ctorIdx : Int) p n c)
+    ∧ Gen.rowFacts.marshal.skipFormat = some (Format.hidden.ctorIdx : Int)
     ∧ Gen.rowFacts.selfRawTypeNil = true ∧ Cells.rawType (.row ms) = .none := by
-  exact ⟨rfl, ⟨_, _, _, _, rfl⟩, rfl, rfl⟩
+  exact ⟨rfl, by decide, rfl, rfl⟩
 
 
 end Jl.RowTie
